@@ -393,10 +393,88 @@ def fam_cancel(w: World) -> None:
                   variant='cancel', kinds=['context'])
 
 
-FAMILIES = {'history': fam_history, 'threads': fam_threads, 'tasks': fam_tasks, 'leak': fam_leak, 'cancel': fam_cancel}
+def _census() -> Dict[str, int]:
+    """Number of live gc-tracked objects per type (after a full collection)."""
+    from collections import Counter
+    gc.collect()
+    return dict(Counter(type(o).__module__ + '.' + type(o).__qualname__ for o in gc.get_objects()))
+
+
+def fam_growth(w: World) -> None:
+    """Memory does not grow with the number of requests served: object census before and after N dispatches.
+
+    The requests differ from one another in every part a client controls (token, id, params, and - for the
+    failing kinds - the method name), so anything keyed by request content shows up as growth."""
+    ch = w.ch
+    is_async = bool(ch.draw(2, 'growth.async'))
+    kind = ch.choice(['ok', 'unknown_method', 'nobind', 'raises', 'notification', 'batch', 'invalid', 'not_json'],
+                     'growth.kind')
+    n = ch.choice([200, 400], 'growth.n')
+    cfg = S.draw_config(ch, 3, middlewares=True, handlers=True, force_async=is_async)
+    cfg['max_batch_size'] = None
+    w.scenario = {'cfg': cfg, 'kind': kind, 'dispatches': n}
+    w.nontrivial = True
+    w.probe('growth.' + kind)
+    sut = S.ServerUnderTest(w, cfg, node='shared')
+    disp, loop = sut.dispatcher, sut.loop
+
+    def text_for(k: int) -> str:
+        tok = f'g{k}'
+        if kind == 'ok':
+            doc: Any = {'jsonrpc': '2.0', 'method': 'echo', 'params': [tok, {'k': k}], 'id': k}
+        elif kind == 'unknown_method':
+            doc = {'jsonrpc': '2.0', 'method': f'nosuch.{k}.m{k}', 'params': [tok], 'id': f'id{k}'}
+        elif kind == 'nobind':
+            doc = {'jsonrpc': '2.0', 'method': 'pair', 'params': {'tok': tok, f'zz{k}': k}, 'id': k}
+        elif kind == 'raises':
+            doc = {'jsonrpc': '2.0', 'method': 'fail_exc', 'params': [tok, 'value'], 'id': k}
+        elif kind == 'notification':
+            doc = {'jsonrpc': '2.0', 'method': 'echo', 'params': [tok, k]}
+        elif kind == 'batch':
+            doc = [{'jsonrpc': '2.0', 'method': 'echo', 'params': [tok, k], 'id': k},
+                   {'jsonrpc': '2.0', 'method': f'nosuch{k}', 'id': f's{k}'},
+                   {'jsonrpc': '2.0', 'method': 'vecho', 'params': [tok]}]
+        elif kind == 'invalid':
+            doc = {'jsonrpc': '2.0', 'method': k, 'id': k}
+        else:
+            return '{"jsonrpc": "2.0", "method": "echo", "id": %d' % k
+        return json.dumps(doc)
+
+    def run(k: int) -> None:
+        ctx_obj = Ctx(k)
+        if is_async:
+            assert loop is not None
+            loop.run_until_complete(disp.dispatch(text_for(k), ctx_obj))
+        else:
+            disp.dispatch(text_for(k), ctx_obj)
+
+    w.recording = False            # the history must not grow either: this family measures the process
+    try:
+        for k in range(30):        # warm-up: whatever is created once per method / code / configuration
+            run(k)
+        before = _census()
+        for k in range(30, 30 + n):
+            run(k)
+        after = _census()
+    except Exception as e:  # noqa: BLE001
+        w.recording = True
+        w.violate('C13.growth', f'dispatch raised {type(e).__name__}: {e}', kind=kind)
+        return
+    w.recording = True
+    grown = {t: after[t] - before.get(t, 0) for t in after if after[t] - before.get(t, 0) >= n // 2}
+    w.rec('server', 'growth.census', dispatches=n, grown=sorted(grown))
+    if grown:
+        worst = max(grown, key=lambda t: grown[t])
+        w.violate('C13.growth', f'after {n} more dispatches ({kind}, {"async" if is_async else "sync"}) the number of live '
+                  f'objects grew with the number of requests: {dict(sorted(grown.items(), key=lambda kv: -kv[1])[:4])}',
+                  kind=kind, worst=worst)
+
+
+FAMILIES = {'history': fam_history, 'threads': fam_threads, 'tasks': fam_tasks, 'leak': fam_leak, 'cancel': fam_cancel,
+            'growth': fam_growth}
 PLAN = {
-    'quick': {'history': 2100, 'threads': 1700, 'tasks': 3500, 'leak': 2800, 'cancel': 4000},
-    'thorough': {'history': 10000, 'threads': 10000, 'tasks': 20000, 'leak': 10000, 'cancel': 20000},
+    'quick': {'history': 2100, 'threads': 1700, 'tasks': 3500, 'leak': 2800, 'cancel': 4000, 'growth': 320},
+    'thorough': {'history': 10000, 'threads': 10000, 'tasks': 20000, 'leak': 10000, 'cancel': 20000, 'growth': 1600},
 }
 CHUNK = 25
 THOROUGH_BUDGET_S = 600
